@@ -20,6 +20,14 @@ SIG = {
     # FIPS 180-4 SHA-512 and FIPS 202 SHAKE256 (first n octets of the output): values uninterpreted (C03)
     'sha512': {'sort': 'bytes', 'uf': True, 'facts': ['len(result) == 64']},
     'shake256': {'sort': 'bytes', 'uf': True, 'facts': ['len(result) == n']},
+    # quadratic residuosity modulo an odd prime p and a square root of a residue (0 <= root < p, root*root == a mod p): which of the two
+    # roots the library's Tonelli-Shanks returns is unspecified
+    'is_square_mod': {'sort': 'bool', 'uf': True},
+    'sqrt_mod': {'sort': 'int', 'uf': True, 'facts': ['ite(spec.keys.is_square_mod(a, p), 0 <= result, True)', 'ite(spec.keys.is_square_mod(a, p), result < p, True)',
+                                                     'ite(spec.keys.is_square_mod(a, p), (result * result) % p == a % p, True)']},
+    # Integer.random_range(lo, hi inclusive) reading the caller's tape from call number `cursor` on (C18: a rejection sampler, so the
+    # value is in range and a function of the bounds and the tape only)
+    'random_range': {'sort': 'int', 'uf': True, 'facts': ['lo <= result', 'result <= hi']},
     # the caller-supplied key-derivation function of DH.key_agreement: an arbitrary function of the shared secret Z
     'kdf_out': {'sort': 'bytes', 'uf': True},
     # result sorts of functions that are opaque in the proofs that do not need their definition
@@ -55,6 +63,62 @@ def sha512(data):
 
 
 def shake256(data, n):
+    pass
+
+
+def is_square_mod(a, p):
+    pass
+
+
+def sqrt_mod(a, p):
+    pass
+
+
+# ====================================================================================================== EdDSA / XDH public keys (RFC 8032 5.1.3, 5.2.3; RFC 7748 5)
+ED25519_D = 37095705934669439343138083508754565189542113879843219016388785533085940283555      # -121665/121666 mod 2^255 - 19 (RFC 8032 5.1)
+ED448_D = (2**448 - 2**224 - 1) - 39081                                                      # -39081 mod p (RFC 8032 5.2)
+
+
+def ed25519_y(enc):
+    """RFC 8032 5.1.3 step 1: the 32 octets as a little-endian integer with the most significant bit (the sign of x) cleared"""
+    return le(setbyte(enc, 31, enc[31] & 0x7F))
+
+
+def ed25519_sign(enc):
+    return enc[31] >> 7
+
+
+def ed25519_x2(y):
+    """RFC 8032 5.1.3 step 2: x^2 = (y^2 - 1) / (d y^2 + 1) mod p"""
+    p = 2**255 - 19
+    u = (y * y - 1) % p
+    v = (((y * y) % p) * ED25519_D + 1) % p
+    return (u * inverse(v, p)) % p
+
+
+def ed448_y(enc):
+    """RFC 8032 5.2.3 step 1: the first 56 octets, little endian (the 57th carries only the sign of x in its top bit)"""
+    return le(enc[:56])
+
+
+def ed448_sign(enc):
+    return enc[56] >> 7
+
+
+def ed448_x2(y):
+    """RFC 8032 5.2.3 step 2: x^2 = (y^2 - 1) / (d y^2 - 1) mod p"""
+    p = 2**448 - 2**224 - 1
+    u = (y * y - 1) % p
+    v = (((y * y) % p) * ED448_D - 1) % p
+    return (u * inverse(v, p)) % p
+
+
+def x25519_u(enc):
+    """RFC 7748 5 decodeUCoordinate for X25519: mask the most significant bit of the final octet, little endian"""
+    return le(setbyte(enc, 31, enc[31] & 0x7F))
+
+
+def random_range(lo, hi, cursor):
     pass
 
 
